@@ -46,6 +46,11 @@ def oracle(line: str, obs: Obs):
             last_read[f"c{t[2]}"] = now
         dwrs = {}
         for l in lines:
+            if l.startswith("DWAOSI "):
+                d = kv(l)
+                # a received DWR is answered 2001 *with the node's Origin-State-Id*
+                if d.get("rc") == "2001" and d.get("osi") != d.get("node"):
+                    fails.append({"what": "the 2001 answer to a DWR does not carry the node's Origin-State-Id", "event": ev, "real": l})
             if l.startswith("OUT "):
                 d = kv(l)
                 c = l.split(" ")[1]
